@@ -92,11 +92,11 @@ theorem fuel_skip_mutual {cfg} : ∀ f,
               obtain ⟨hk, h2⟩ := step h1 hnz
               exact (skipQuoted_ok (f+1) _ _ h2 (by omega)).mono (by omega)
             · split
-              · exact skipKeyword_ok _ _ _ (look h1)
+              · exact skipKeyword_fuel_ok _ _ _ (look h1)
               · split
-                · exact skipKeyword_ok _ _ _ (look h1)
+                · exact skipKeyword_fuel_ok _ _ _ (look h1)
                 · split
-                  · exact skipKeyword_ok _ _ _ (look h1)
+                  · exact skipKeyword_fuel_ok _ _ _ (look h1)
                   · exact ok2 (skipNumeric_rem _ _ _ (look h1)) (by decide)
       · exact h0
     · intro limit s k h hf
@@ -240,11 +240,11 @@ theorem fuel_fparse_mutual {cfg} : ∀ f,
                 split <;> (rename_i heq2; rw [heq2] at h3; exact ok3 (Nat.le_trans h3.1 (by omega)) h3.2)
               · exact ok3_of_ok2' ((skipQuoted_ok (f+1) _ _ h2 (by omega)).mono (by omega))
             · split
-              · exact ok3_of_ok2' (skipKeyword_ok _ _ _ (look h1))
+              · exact ok3_of_ok2' (skipKeyword_fuel_ok _ _ _ (look h1))
               · split
-                · exact ok3_of_ok2' (skipKeyword_ok _ _ _ (look h1))
+                · exact ok3_of_ok2' (skipKeyword_fuel_ok _ _ _ (look h1))
                 · split
-                  · exact ok3_of_ok2' (skipKeyword_ok _ _ _ (look h1))
+                  · exact ok3_of_ok2' (skipKeyword_fuel_ok _ _ _ (look h1))
                   · split
                     · exact parseNumeric_ok _ _ (look h1)
                     · exact ok3 (skipNumeric_rem _ _ _ (look h1)) (by decide)
